@@ -265,6 +265,7 @@ class RefModel:
             busy.discard(key)
             memo[key] = r
             return r
+        value.memo = memo       # every intermediate value evaluated so far (used for conditioning filters)
 
         def edge_raw_source(e):
             if e['et'] is not None:
